@@ -224,21 +224,23 @@ def jobs_for(prop, tier):
     elif prop == "C14":
         for sp in fleet_subjects(tier, c14=True):
             jobs.append({"engine": "S", "prop": prop, "label": sp.label() + "#" + _h(sp), "spec": sp.to_json(), "caps": caps})
+        jobs += [j for j in f_jobs(prop, tier) if any(e["t"] == "fleet" for e in j["config"]["edges"])]   # loading order in whole factories
     return jobs
 
 
 F_FAMILIES = {
     "C01": ["lines", "congestion", "diamonds", "conveyors", "combiners"],
     "C06": ["diamonds", "fans", "splitters", "conveyors"],
-    "C03": ["lines", "congestion", "diamonds", "combiners", "splitters", "conveyors", "draining", "nonblocking_fleet", "fleet_dense", "discards"],
-    "C08": ["lines", "congestion", "diamonds", "combiners", "splitters", "conveyors"],
-    "C09": ["lines", "congestion", "fans", "combiners", "splitters", "nonblocking_fleet", "discards"],
-    "C10": ["lines", "congestion", "diamonds", "fans", "combiners", "splitters", "conveyors", "draining", "nonblocking_fleet", "fleet_dense", "discards"],
-    "C15": ["diamonds", "fans", "combiners", "splitters", "invalid_indices", "discards"],
-    "C16": ["combiners", "splitters"],
-    "C17": ["lines", "congestion", "diamonds", "splitters", "combiners", "conveyors", "discards"],
-    "C18": ["lines", "congestion", "diamonds", "combiners", "splitters", "conveyors", "nonblocking_fleet", "fleet_dense", "discards"],
-    "C20": ["lines", "congestion", "diamonds", "fans", "combiners", "splitters", "conveyors", "invalid", "c20_extra", "fleet_dense", "nonblocking_fleet", "discards"],
+    "C03": ["lines", "congestion", "diamonds", "combiners", "splitters", "conveyors", "draining", "nonblocking_fleet", "fleet_dense", "discards", "long_runs"],
+    "C08": ["lines", "congestion", "diamonds", "combiners", "splitters", "conveyors", "long_runs"],
+    "C09": ["lines", "congestion", "fans", "combiners", "splitters", "nonblocking_fleet", "discards", "long_runs"],
+    "C10": ["lines", "congestion", "diamonds", "fans", "combiners", "splitters", "conveyors", "draining", "nonblocking_fleet", "fleet_dense", "discards", "long_runs"],
+    "C14": ["lines", "fleet_dense", "nonblocking_fleet", "long_runs", "diamonds"],
+    "C15": ["diamonds", "fans", "combiners", "splitters", "invalid_indices", "discards", "long_runs"],
+    "C16": ["combiners", "splitters", "long_runs"],
+    "C17": ["lines", "congestion", "diamonds", "splitters", "combiners", "conveyors", "discards", "long_runs"],
+    "C18": ["lines", "congestion", "diamonds", "combiners", "splitters", "conveyors", "nonblocking_fleet", "fleet_dense", "discards", "long_runs"],
+    "C20": ["lines", "congestion", "diamonds", "fans", "combiners", "splitters", "conveyors", "invalid", "c20_extra", "fleet_dense", "nonblocking_fleet", "discards", "long_runs"],
 }
 
 
@@ -248,7 +250,7 @@ def f_jobs(prop, tier):
     jobs = []
     for fam in F_FAMILIES[prop]:
         for cfg in factory.FAMILIES[fam](tier):
-            jobs.append({"engine": "F", "prop": prop, "label": cfg["tag"], "config": cfg, "bound": 2 if q else 3,
+            jobs.append({"engine": "F", "prop": prop, "label": cfg["tag"], "config": cfg, "bound": cfg.get("bound", 2 if q else 3),
                          "crash_is_violation": prop == "C20",
                          "caps": {"max_runs": 6000 if q else 300000, "max_seconds": 600 if q else 1200}})
     return jobs
